@@ -20,8 +20,8 @@ DIMACS = ['dimacs:cnf', 'dimacs:wcnf', 'dimacs:gcnf']
 AIGER = ['aiger:aag', 'aiger:aig']
 # property -> bounded native stand-in suites (standin/src/*.rs); bounded, never counted as proved
 STANDIN_FOR = {
-    'C01': FMT_SUITES, 'C02': ['reader'], 'C03': [s for s in FMT_SUITES if 'satlog' not in s and 'stream' not in s] + AIGER + DIMACS, 'C04': FMT_SUITES, 'C05': FMT_SUITES + ['renumber'],
-    'C06': DIMACS + AIGER + ['dimacs:satlog'], 'C07': DIMACS + ['dimacs:satlog'], 'C08': FMT_SUITES + DIMACS + AIGER, 'C09': STREAMING + ['reader'], 'C10': ['reader', 'mem'], 'C11': ['writer'],
+    'C01': FMT_SUITES + ['ctor'], 'C02': ['reader'], 'C03': [s for s in FMT_SUITES if 'satlog' not in s and 'stream' not in s] + AIGER + DIMACS, 'C04': FMT_SUITES, 'C05': FMT_SUITES + ['renumber'],
+    'C06': DIMACS + AIGER + ['dimacs:satlog'], 'C07': DIMACS + ['dimacs:satlog'], 'C08': FMT_SUITES + DIMACS + AIGER, 'C09': STREAMING + ['reader', 'ctor'], 'C10': ['reader', 'mem'], 'C11': ['writer'],
     'C12': ['renumber'], 'C13': ['scan'], 'C14': ['reader', 'raw', 'fmt:btor2', 'fmt:cnf', 'fmt:gcnf', 'fmt:aag', 'fmt:aig'], 'C16': ['scan'],
 }
 SUITE_FN = {
@@ -46,6 +46,7 @@ SUITE_FN = {
     'writer': ('flussab::deferred_writer::DeferredWriter (operation sequences against a sink model)', 'flussab/src/deferred_writer.rs'),
     'scan': ('flussab::text scanners against whole-string reference definitions', 'flussab/src/text.rs'),
     'renumber': ('flussab_aiger::aig::Renumber::renumber_aig on every small circuit', 'flussab-aiger/src/aig.rs'),
+    'ctor': ('Parser::{from_read, from_boxed_dyn_read, from_buf_reader} of all six parsers against Parser::new', 'flussab-cnf/src/cnf.rs'),
     'mem': ('streaming parsers under a counting allocator', 'flussab/src/deferred_reader.rs'),
     'raw': ('raw-pointer paths of flussab::text / write::text / DeferredReader under valgrind memcheck', 'flussab/src/text.rs'),
 }
